@@ -251,6 +251,11 @@ namespace verif {
       fatal_after_report() = true;
       r.fail(out.result == SIM_DEADLOCK ? "deadlock" : "no-progress-within-step-cap",
              out.result == SIM_DEADLOCK ? "every unfinished actor is blocked on a mutex" : "step cap reached before all operations returned");
+      r.event_hash = out.stats.event_hash;
+      r.nontrivial = true;
+      if (fatal_handler()) {
+        fatal_handler()(r); // reports and _exit()s: the parked threads still use everything on our stack
+      }
     }
     J rec = J::object();
     rec["mode"] = J("explicit");
